@@ -457,6 +457,21 @@ def _relay(ctx: Ctx) -> None:  # noqa: C901, PLR0915
                 cb = CmpctBlock(m.block.header, nonce, [sid[i] for i in range(len(txs)) if i not in prefilled], [PrefilledTransaction(i, txs[i]) for i in prefilled])
                 ctx.check(P, "short-id-equals-reference", [cb.short_id(t.hash) for t in txs] == sid, lambda: f"nonce {nonce}: short ids differ from SipHash-2-4 of the wtxids", site="cmpctblock")
                 m.cmpct[node] = cb.serialize()
+                if ch.chance(1, 4, "cmpct.remine?"):
+                    # the miner keeps working on the header its announcement object holds (a BlockHeader is mutable, the
+                    # message around it frozen): short ids asked of that object afterwards are keyed on the header as it
+                    # is now. Undone before anything else looks at the block
+                    hdr = cb.header
+                    was = hdr.nonce
+                    hdr.nonce = (was + 1 + ch.draw(1000, "cmpct.remine.nonce")) & 0xFFFFFFFF
+                    try:
+                        key2 = hashlib.sha256(hdr.serialize(check_validity=False) + nonce.to_bytes(8, "little")).digest()
+                        ka, kb = int.from_bytes(key2[:8], "little"), int.from_bytes(key2[8:16], "little")
+                        want2 = [gcs.siphash24(ka, kb, w) & (2**48 - 1) for w in m.wtxids]
+                        ctx.check(P, "short-id-equals-reference", [cb.short_id(t.hash) for t in txs] == want2, lambda: f"after the held header moved to nonce {hdr.nonce}: short ids are not those of the header as it is", site="cmpctblock/header-moved")
+                        ctx.fault("header-mutated-under-announcement")
+                    finally:
+                        hdr.nonce = was
             # the node's pool for this block: a subset of it, strangers, twins with another witness, shuffled
             keep = ch.pick([0, 1, 2], "pool.keep")
             pool = [g.tx for g in m.gens if keep == 2 or (keep == 1 and ch.draw(2, "pool.has"))]
